@@ -10,7 +10,7 @@
 # Exit 0 if everything agrees, 2 (harness error) otherwise.
 #   usage: scripts/determinism.sh [N] [M]        defaults: 2000 and 1000 (Prefix / fault shapes: N/20)
 set -u
-VERIF=/verif
+VERIF=$(cd "$(dirname "$0")/.." && pwd)
 N=${1:-2000}; M=${2:-1000}
 SEED=${VERIF_SEED:-1}
 "$VERIF/check" build >/dev/null || exit 2
